@@ -91,6 +91,9 @@ def ttsvd(E, s):
         kw['rmax'] = E.int('rmax', 1, s['rmax_hi'])
     elif rmax is not None:
         kw['rmax'] = list(rmax) if isinstance(rmax, list) else rmax
+        if s.get('rmax_np') and isinstance(rmax, list):
+            # the caps come from another object's rank list, which holds numpy integers after a truncation
+            kw['rmax'] = [E.np.int64(v) if 0 < i < len(rmax) - 1 else v for i, v in enumerate(rmax)]
     if s.get('ttm'):
         M, N = s['M'], s['N']
         T = E.tt.TT(A, [(m, n) for m, n in zip(M, N)], eps=eps, **kw)
@@ -112,7 +115,7 @@ def ttsvd(E, s):
         d = len(Nt)
         modes = list(Nt)
     if isinstance(rmax, list):
-        E.true('rmax_argument_intact', kw['rmax'] == list(s['rmax']) and all(type(v) is int for v in kw['rmax']))
+        E.true('rmax_argument_intact', [int(v) for v in kw['rmax']] == list(s['rmax']) and (s.get('rmax_np') or all(type(v) is int for v in kw['rmax'])))
     R = [int(r) for r in T.R]
     E.true('rank_list_length', len(R) == d + 1)
     E.true('boundary_ranks', R[0] == 1 and R[-1] == 1)
